@@ -14,13 +14,16 @@ namespace {
     std::vector<std::pair<std::string, std::pair<std::shared_ptr<uint8_t>, long>>> inputs;
     // pristine copy to detect writes into the input bytes
     std::vector<std::vector<uint8_t>> pristine;
+    // the input bytes start this far into their buffer (a view, as Python hands over a slice of a larger buffer)
+    std::vector<long> offsets;
   };
 
   std::map<std::string, std::shared_ptr<ak::ForthInputBuffer>> make_inputs(FM& fm) {
     std::map<std::string, std::shared_ptr<ak::ForthInputBuffer>> out;
-    for (auto& pr : fm.inputs) {
+    for (size_t i = 0;  i < fm.inputs.size();  i++) {
+      auto& pr = fm.inputs[i];
       out[pr.first] = std::make_shared<ak::ForthInputBuffer>(
-          std::static_pointer_cast<void>(pr.second.first), 0, (int64_t)pr.second.second);
+          std::static_pointer_cast<void>(pr.second.first), (int64_t)fm.offsets[i], (int64_t)pr.second.second);
     }
     return out;
   }
@@ -118,7 +121,7 @@ namespace {
     out += "],\"inputs_intact\":";
     bool intact = true;
     for (size_t i = 0;  i < fm.inputs.size();  i++) {
-      if (fm.pristine[i].size() != (size_t)fm.inputs[i].second.second  ||
+      if (fm.pristine[i].size() != (size_t)(fm.inputs[i].second.second + fm.offsets[i])  ||
           (fm.pristine[i].size() != 0  &&
            std::memcmp(fm.pristine[i].data(), fm.inputs[i].second.first.get(), fm.pristine[i].size()) != 0)) {
         intact = false;
@@ -154,18 +157,25 @@ extern "C" {
   int aws_fm_input(long h, const char* name, const void* bytes, long n) {
     AWS_TRY
     auto fm = awsim::get<FM>(h, awsim::K_FM);
-    std::shared_ptr<uint8_t> buf(new uint8_t[(size_t)n], std::default_delete<uint8_t[]>());
-    if (n > 0) std::memcpy(buf.get(), bytes, (size_t)n);
-    std::vector<uint8_t> copy((const uint8_t*)bytes, (const uint8_t*)bytes + n);
+    // a third of the inputs are views that start 1..12 bytes into their buffer (decided by the data, so that a case
+    // always gets the same view)
+    long mix = n * 7 + (long)std::strlen(name) + (n > 0 ? ((const uint8_t*)bytes)[0] : 0);
+    long off = (mix % 3 == 0) ? 1 + (mix % 12) : 0;
+    std::shared_ptr<uint8_t> buf(new uint8_t[(size_t)(off + n)], std::default_delete<uint8_t[]>());
+    for (long i = 0;  i < off;  i++) buf.get()[i] = (uint8_t)(0xE0 + i);
+    if (n > 0) std::memcpy(buf.get() + off, bytes, (size_t)n);
+    std::vector<uint8_t> copy(buf.get(), buf.get() + off + n);
     for (size_t i = 0;  i < fm->inputs.size();  i++) {
       if (fm->inputs[i].first == name) {
         fm->inputs[i].second = std::make_pair(buf, n);
         fm->pristine[i] = copy;
+        fm->offsets[i] = off;
         return 1;
       }
     }
     fm->inputs.push_back(std::make_pair(std::string(name), std::make_pair(buf, n)));
     fm->pristine.push_back(copy);
+    fm->offsets.push_back(off);
     return 1;
     AWS_CATCH(0)
   }
